@@ -1,0 +1,70 @@
+// Licensed to the Apache Software Foundation (ASF) under one
+// or more contributor license agreements.  See the NOTICE file
+// distributed with this work for additional information
+// regarding copyright ownership.  The ASF licenses this file
+// to you under the Apache License, Version 2.0 (the
+// "License"); you may not use this file except in compliance
+// with the License.  You may obtain a copy of the License at
+//
+//   http://www.apache.org/licenses/LICENSE-2.0
+//
+// Unless required by applicable law or agreed to in writing,
+// software distributed under the License is distributed on an
+// "AS IS" BASIS, WITHOUT WARRANTIES OR CONDITIONS OF ANY
+// KIND, either express or implied.  See the License for the
+// specific language governing permissions and limitations
+// under the License.
+
+//! Verification hooks (feature `verif-hooks`): re-exports of crate-private hashers so that an
+//! external harness can compare them with reference implementations. Not part of the public API.
+
+use std::hash::Hasher;
+
+use crate::hash::MurmurHash3X64128;
+use crate::hash::XxHash64;
+
+/// MurmurHash3-x64-128 of the concatenation of `chunks`, issued as one `write` per chunk.
+pub fn murmur3_x64_128(seed: u64, chunks: &[&[u8]]) -> (u64, u64) {
+    let mut hasher = MurmurHash3X64128::with_seed(seed);
+    for chunk in chunks {
+        hasher.write(chunk);
+    }
+    hasher.finish128()
+}
+
+/// Same as [`murmur3_x64_128`] but also calls `finish128` after every write (it must not
+/// disturb the state) and returns the final digest.
+pub fn murmur3_x64_128_probing(seed: u64, chunks: &[&[u8]]) -> (u64, u64) {
+    let mut hasher = MurmurHash3X64128::with_seed(seed);
+    for chunk in chunks {
+        hasher.write(chunk);
+        let _ = hasher.finish128();
+        let _ = hasher.finish();
+    }
+    hasher.finish128()
+}
+
+/// XXH64 of the concatenation of `chunks`, issued as one `write` per chunk.
+pub fn xxhash64(seed: u64, chunks: &[&[u8]]) -> u64 {
+    let mut hasher = XxHash64::with_seed(seed);
+    for chunk in chunks {
+        hasher.write(chunk);
+    }
+    hasher.finish64()
+}
+
+/// Same as [`xxhash64`] but also calls `finish64` after every write.
+pub fn xxhash64_probing(seed: u64, chunks: &[&[u8]]) -> u64 {
+    let mut hasher = XxHash64::with_seed(seed);
+    for chunk in chunks {
+        hasher.write(chunk);
+        let _ = hasher.finish64();
+        let _ = hasher.finish();
+    }
+    hasher.finish64()
+}
+
+/// The 16-bit seed hash stored in theta / CPC images.
+pub fn seed_hash(seed: u64) -> u16 {
+    crate::hash::compute_seed_hash(seed)
+}
